@@ -161,10 +161,11 @@ def _pal_scale_down(p):
 def _pal_adversarial(p):
     # exact images for a handful of abstract values; data-moving calls only
     p.special = {Fraction(1): 1e-7, Fraction(2): float(2 ** 53 + 2), Fraction(3): 0.1 + 0.2,
-                 Fraction(4): 1234567.1234567, Fraction(5): 1e300, Fraction(6): 5e-324,
-                 Fraction(7): 1e22, Fraction(8): 1e-5, Fraction(9): 123456789.125,
+                 Fraction(4): 1234567.1234567, Fraction(5): 0.7, Fraction(6): 0.2,
+                 Fraction(7): 1e22, Fraction(8): 5e-324, Fraction(9): 1e300,
                  Fraction(-1): -1e-7, Fraction(-2): -2.5e-9, Fraction(-3): -3.0000000000000004,
-                 Fraction(1, 2): 0.1, Fraction(1, 4): 1.0000000000000002}
+                 Fraction(1, 2): 0.6, Fraction(1, 4): 1.0000000000000002, Fraction(10): 1e-5,
+                 Fraction(20): 123456789.125}
 
 
 PALETTES = {"unicode": _pal_unicode, "numeric_ids": _pal_numeric_ids, "case_ids": _pal_case_ids,
